@@ -6,7 +6,7 @@ from props import common, serdes
 def run(ctx):
     q = ctx.quick()
     cases, n = serdes.model(ctx, "rt", 1)
-    out, tres, events = serdes.run_harness(ctx, cases, 30 if q else 1500, 1, "serde-rt")
+    out, tres, events = serdes.run_harness(ctx, cases, 30 if q else 20000, 1, "serde-rt")
     serdes.report(ctx, out, tres, events, {"shape", "acceptance"}, {"ser", "de"})
     ctx.cov["evaluations"] = out["rt"] + out["alt"] + out["random"]
     ctx.cov["distinct_nontrivial"] = out["rt"] + out["alt"]
